@@ -11,7 +11,7 @@ T_RPO = 'T4 RPO hash (miden-crypto hash_elements / merge_in_domain) uninterprete
 PROPS = {
     'C08': {
         'level': 'proof',
-        'units': ['span_batch'],
+        'units': ['span_batch', 'blocks_hash'],
         'kani': [],
         'trusted_base': [T_FELT, T_RPO, T_TOOLS],
         'not_decided': ['RPO collision resistance', 'assembler emits identical ops with/without comments/debug (see C14 bounded family)'],
